@@ -171,6 +171,12 @@ func (fr *Frame) load(v Val, t types.Type, pos token.Pos, check bool) Val {
 		}
 	}
 	res := Val{T: cur}
+	if needsTypeAssume(t, 0) && !fr.inQuant && !hasBound(cur) {
+		if !fr.ctx.wfDone[cur] {
+			fr.ctx.wfDone[cur] = true
+			fr.ctx.typeAssume(cur, t, TTrue)
+		}
+	}
 	return res
 }
 
@@ -475,7 +481,7 @@ func (fr *Frame) runDefers(pos token.Pos) {
 		if d.fn.Clo == nil {
 			unsupported("defer of dynamic function in %s", fr.fn)
 		}
-		res, st, _ := fr.ctx.runFunc(d.fn.Clo.Fn, d.args, d.fn.Clo.Bindings, fr.cur, fr.curReach, fr, frameOpts{prefix: "defer"})
+		res, st, _ := fr.ctx.runFunc(d.fn.Clo.Fn, d.args, d.fn.Clo.Bindings, fr.cur, fr.abs(), fr, frameOpts{prefix: "defer"})
 		_ = res
 		fr.cur = st
 	}
